@@ -2,7 +2,7 @@
 # Copy the macro crate's current sources next to the harness root (T1/T2, DESIGN.md section 4).
 set -e
 cd "$(dirname "$0")"
-rsync -rc --delete --exclude lib.rs --exclude main.rs --exclude dump.rs --exclude dump_syn.rs --exclude toks_cmds.rs --exclude toks_main.rs --exclude assert_struct_def.rs /repo/assert-struct-macros/src/ src/
+rsync -rc --delete --exclude lib.rs --exclude main.rs --exclude dump.rs --exclude dump_syn.rs --exclude toks_cmds.rs --exclude toks_main.rs --exclude assert_struct_def.rs --exclude gated.rs /repo/assert-struct-macros/src/ src/
 cp /repo/Cargo.lock Cargo.lock
 # the input struct of the macro, as lib.rs defines it now (the harness reads its `value` and `pattern` fields only, so that a field
 # added to it does not stop the harness from building); rewritten only when it changes (cargo looks at mtimes)
